@@ -38,6 +38,13 @@ package utils
 //@ func validateExpiration
 //@   arith assumed
 //@   at-return {C02} [accepted-only-inside-the-window] when ret0 == nil :: ensures 0 <= exp && exp <= 604800 && passed <= exp && passed >= -timeExpirationSec
+// C02: the url a presigned signature is recomputed for is built from what the handlers act on: the path as it is served,
+// every other query parameter with its name and its value escaped
+//@ func createPresignedHttpRequestFromCtx
+//@   at-call httpbinding.EscapePath {C02} [the-path-verified-is-the-path-served] requires $0 == ctx.Path()
+//@ func createPresignedHttpRequestFromCtx$1
+//@   at-call fmt.Sprintf {C02} [parameter-names-are-escaped-like-values] requires len($1) == 2 && as($1[0], string) == escapeKey && as($1[1], string) == escapeValue \
+//@        && called("url.QueryEscape")
 //@ func IsSpecialPayload
 //@   pure
 //@ func IsStreamingPayload
